@@ -1604,6 +1604,11 @@ def check_C17(tier, seed):
     wd = core.workdir("C17_alphabet")
     files = gen_files(wd, "gen-session-alphabet", [], core.NCPU, "al")
     sem_files_leg(o, "alphabet-sessions", files, wd)
+    # all sessions of up to three lines over a second alphabet of ten lines about heap values: globals that hold them,
+    # aliases between globals, values stored into an array of an earlier line, collections in between
+    wdh = core.workdir("C17_heap_alphabet")
+    hfiles = gen_files(wdh, "gen-session-alphabet", ["--set", "heap"], core.NCPU, "ah")
+    sem_files_leg(o, "heap-alphabet-sessions", hfiles, wdh)
     # random sessions of up to 12 lines with failing lines of every class
     wd2 = core.workdir("C17_random")
     n = size(tier, 640, 16000)
@@ -1785,7 +1790,10 @@ def float_leg(o, name, extra, seed):
             rec = recs[v["id"]]
             if v["class"] == "mismatch":
                 for (op, form) in v["wrong"][:3]:
-                    ob = rec["lit"][form - 1] if op == "literal" else (rec["cmp"].get(op) or rec["ar"].get(op))[form - 1]
+                    if op == "spelling":
+                        ob = dict(rec["spellings"][form - 1]["obs"], text=rec["spellings"][form - 1]["text"])
+                    else:
+                        ob = rec["lit"][form - 1] if op == "literal" else (rec["cmp"].get(op) or rec["ar"].get(op))[form - 1]
                     o.violation({"leg": name, "rule": "float-operator", "op": op, "form": form, "a": rec["at"], "b": rec["bt"],
                                  "observed": ob, "class": {"E": "Err", "X": "Panic"}.get(ob.get("c"), "Value"),
                                  "msg": ob.get("what"), "loc": ob.get("loc")},
